@@ -25,6 +25,8 @@ impl<Key> KeyDescription<Key>
     /// Key needs to be cloned because it is added in 2 structures:
     /// `crate::cache::store::Store` and `crate::cache::policy::cache_weight::CacheWeight`
     pub(crate) fn clone_key(&self) -> Key { self.key.clone() }
+
+    pub(crate) fn key(&self) -> &Key { &self.key }
 }
 
 #[cfg(test)]
